@@ -3,14 +3,14 @@
 E=$1; B=$2; shift 2
 rm -rf /tmp/rp; mkdir -p /tmp/rp
 for sd in "$@"; do
-  ( GOMAXPROCS=2 /verif/.bin/sim batch -engine $E -seed $sd -n 100000000 -budget $B -replays /tmp/rp -maxviol 8 -known /verif/known_findings.json 2>/tmp/rp/err-$sd.txt | python3 -c "
+  ( GOMAXPROCS=2 ${BIN:-/verif/.bin/sim} batch -engine $E -seed $sd -n 100000000 -budget $B -replays /tmp/rp -maxviol 8 -known /verif/known_findings.json 2>/tmp/rp/err-$sd.txt | python3 -c "
 import json,sys
 t=sys.stdin.read()
 try: d=json.loads(t)
 except Exception as ex:
     print('seed $sd BAD OUTPUT', t[:1500], open('/tmp/rp/err-$sd.txt').read()[:3000]); sys.exit()
 for v in d['violations'] or []:
-    print(v['class'], v['replay']); print(v['violation']['detail'][:1800])
+    print(v['class'], v['replay']); print(v["violation"]["detail"][:400])
 print('seed $sd runs', d['runs'], 'evals', d['evaluations'], 'known', sum((d.get('known') or {}).values()))" > /tmp/rp/out-$sd.txt ) &
 done 2>/dev/null
 wait
